@@ -20,6 +20,22 @@ pub struct VerifState {
     pub instructions: u64,
     /// collections that actually ran (marked and swept)
     pub collections: u64,
+    /// when `Some`, every call of `run_gc` appends one `GcPoint`
+    pub gc_log: Option<Vec<GcPoint>>,
+}
+
+/// One call of `Vm::run_gc` (a collection point), skipped or not.
+#[derive(Debug, Clone, Copy, PartialEq, Eq)]
+pub struct GcPoint {
+    /// `used_size()` / `capacity()` on entry
+    pub used_before: usize,
+    pub capacity_before: usize,
+    /// the utilisation test passed (or was bypassed) and mark + sweep ran
+    pub collected: bool,
+    /// `used_size()` right after the sweep (= `used_before` when skipped)
+    pub used_after_sweep: usize,
+    /// `capacity()` on exit (after the optional growth)
+    pub capacity_after: usize,
 }
 
 impl Vm {
@@ -48,6 +64,33 @@ impl Vm {
         } || self.verif.gc_at.contains(&n);
         if due {
             self.verif_force_gc();
+        }
+    }
+
+    /// Start (`true`, with an empty log) or stop (`false`) recording collection points.
+    pub fn verif_set_gc_log(&mut self, on: bool) {
+        self.verif.gc_log = if on { Some(vec![]) } else { None };
+    }
+
+    /// Take the collection points recorded so far, leaving an empty log in place.
+    pub fn verif_take_gc_log(&mut self) -> Vec<GcPoint> {
+        match self.verif.gc_log.as_mut() {
+            Some(log) => std::mem::take(log),
+            None => vec![],
+        }
+    }
+
+    /// Called by `run_gc` on each of its two exits.
+    pub(crate) fn verif_log_gc(&mut self, before: (usize, usize), collected: bool, swept: usize) {
+        let capacity_after = self.heap.capacity();
+        if let Some(log) = self.verif.gc_log.as_mut() {
+            log.push(GcPoint {
+                used_before: before.0,
+                capacity_before: before.1,
+                collected,
+                used_after_sweep: swept,
+                capacity_after,
+            });
         }
     }
 
